@@ -61,7 +61,8 @@ type Ev struct {
 	Key      int    `json:"key,omitempty"`
 	Perm     int    `json:"perm,omitempty"`
 	Salt     int64  `json:"salt,omitempty"`
-	DC       int    `json:"dc,omitempty"` // migrate target
+	PFS      bool   `json:"pfs,omitempty"` // the connection runs with PFS (ghost for the model)
+	DC       int    `json:"dc,omitempty"`  // migrate target
 }
 type Hist struct {
 	InitDC int  `json:"init_dc"`
@@ -262,7 +263,7 @@ func runHist(c *hx.Ctx, kind string, h Hist) {
 			if e.CDN {
 				hd = "HCdn"
 			}
-			evL[i] = fmt.Sprintf("ENotify (mkNotif %s %s %d %d %s)", hd, hx.Z(int64(e.Reported)), e.Key, e.Perm, hx.Z(e.Salt))
+			evL[i] = fmt.Sprintf("ENotify (mkNotif %s %s %s %d %d %s %s)", hd, hx.Z(int64(e.Reported)), hx.Z(int64(e.ConnDC)), e.Key, e.Perm, hx.Z(e.Salt), hx.B(e.PFS || e.Perm != 0))
 		case "migrate":
 			evL[i] = "EMigrate " + hx.Z(int64(e.DC))
 		default:
@@ -390,7 +391,8 @@ func runRestore(c *hx.Ctx, g RestoreGroup) {
 			}
 		}
 		if emit[i] {
-			ml = append(ml, hx.Tuple(hx.Tuple(hx.Z(int64(m.K)), fmt.Sprintf("%d%%nat", m.Pos), hx.Z(int64(m.V))), hx.Tuple(hx.B(err != nil), hx.Z(int64(after.DC)))))
+			installed := bytes.Equal(after.AuthKey.Value[:], pad(key, 256)) && bytes.Equal(after.AuthKey.ID[:], pad(id, 8))
+			ml = append(ml, hx.Tuple(hx.Tuple(hx.Z(int64(m.K)), fmt.Sprintf("%d%%nat", m.Pos), hx.Z(int64(m.V))), hx.Tuple(hx.B(err != nil), hx.Z(int64(after.DC)), hx.Z(after.Salt), hx.B(installed || err != nil))))
 			mj = append(mj, map[string]interface{}{"mut": m, "err": err != nil, "dc": after.DC})
 		}
 	}
@@ -464,6 +466,7 @@ func genHist(r *hx.Rand) Hist {
 			if pfs && !r.Chance(1, 8) {
 				e.Perm = r.Range(1, 4)
 			}
+			e.PFS = pfs
 			switch k := r.Intn(10); {
 			case k < 5 && primaryGuess != 0: // primary connection
 				e.ConnDC = primaryGuess
@@ -471,7 +474,7 @@ func genHist(r *hx.Rand) Hist {
 				e.ConnDC = conn[r.Intn(3)]
 			default:
 				e.CDN, e.ConnDC = true, conn[r.Intn(3)]
-				e.Perm = 0 // CDN pools never use PFS
+				e.Perm, e.PFS = 0, false // CDN pools never use PFS
 			}
 			e.Reported = e.ConnDC
 			if !e.CDN && r.Chance(zeroRate, 10) {
